@@ -31,6 +31,10 @@ def configs(tier, seed):
     for router in ('aggregated-consistent-hashing', 'fast-aggregated-hashing'):
       for s in range(1 if tier == 'quick' else 3):
         cfgs.append(dict(name='%s/%s/%d' % (router, ht, s), mode='agg', router=router, hash_type=ht, shard=s))
+      # the aggregator's name-lookup cache (CACHE_METRIC_NAMES_MAX / _TTL, as suggested in carbon.conf.example)
+      if tier == 'thorough' or ht == 'carbon_ch':
+        cfgs.append(dict(name='%s/%s/namecache' % (router, ht), mode='agg', router=router, hash_type=ht, shard=9,
+                         names_max=1000 if 'fast' in router else 3, names_ttl=0 if 'fast' in router else 600))
   return cfgs
 
 
@@ -70,9 +74,14 @@ def gen_agg_rules(r):
   """Returns text; output templates get distinct literal heads so that two rules never claim one aggregate."""
   from vlib.refs import aggrules
   lines = []
+  earlier = []
   for i in range(r.randint(1, 4)):
     nparts = r.randint(1, 4)
     parts, fields = [], []
+    if earlier and r.random() < 0.3:
+      # several rules over the very same input pattern (sum / avg / max of one set of series), different outputs
+      parts, fields = r.choice(earlier)
+      nparts = 0
     for p in range(nparts):
       c = r.random()
       if c < 0.4:
@@ -89,6 +98,7 @@ def gen_agg_rules(r):
         f = 'f%d' % len(fields)
         fields.append(f)
         parts.append('<<%s>>' % f)
+    earlier.append((list(parts), list(fields)))
     used = [f for f in fields if r.random() < 0.7]
     out = 'agg%d.' % i + '.'.join(['<%s>' % f for f in used] + [r.choice(LITS)])
     lines.append('%s (%d) = %s %s' % (out, r.choice([10, 60]), r.choice(aggrules.METHODS), '.'.join(parts)))
@@ -184,7 +194,11 @@ def run_config(cfg, res):
 
   # aggregated routers
   ht = cfg['hash_type']
-  ns = boot.boot('carbon-relay', {'RELAY_METHOD': cfg['router'], 'ROUTER_HASH_TYPE': ht, 'DESTINATIONS': '127.0.0.1:2004:a'},
+  conf = {'RELAY_METHOD': cfg['router'], 'ROUTER_HASH_TYPE': ht, 'DESTINATIONS': '127.0.0.1:2004:a'}
+  if cfg.get('names_max'):
+    conf['CACHE_METRIC_NAMES_MAX'] = cfg['names_max']
+    conf['CACHE_METRIC_NAMES_TTL'] = cfg['names_ttl']
+  ns = boot.boot('carbon-relay', conf,
                  files={'aggregation-rules.conf': 'agg.x (10) = sum nothing.matches.this\n',
                         'relay-rules.conf': '[default]\ndefault = true\ndestinations = 127.0.0.1:2004:a\n'})
   from carbon.routers import DatapointRouter
